@@ -357,8 +357,10 @@ class Sym:
         return int(self.__trunc__())
 
     def __repr__(self):
-        s = str(self.e).replace("\n", " ")
-        return f"Sym({s if len(s) < 80 else s[:77] + '...'})"
+        # cheap on purpose: explain()/str() of the real code format every value; printing big z3 terms is very slow
+        if z3.is_const(self.e):
+            return f"Sym({self.e})"
+        return f"Sym(#{self.e.get_id()})"
 
     def __format__(self, spec):
         return repr(self)
@@ -453,8 +455,9 @@ class SymInt(Sym):
         return self
 
     def __repr__(self):
-        s = str(self.ie).replace("\n", " ")
-        return f"SymInt({s if len(s) < 80 else s[:77] + '...'})"
+        if z3.is_const(self.ie):
+            return f"SymInt({self.ie})"
+        return f"SymInt(#{self.ie.get_id()})"
 
 
 numbers.Real.register(Sym)
@@ -469,6 +472,7 @@ def is_sym(x):
 # execution context
 # ----------------------------------------------------------------------------------------------------------------
 _CTX = [None]
+_FP_CACHE = {}
 
 
 def CTX():
@@ -489,6 +493,11 @@ def _where(tb):
         if "/efootprint/" in fs.filename:
             site = f"{os.path.basename(fs.filename)}:{fs.name}"
     return site or "harness"
+
+
+def where(exc):
+    """site of an exception: innermost efootprint frame ('file.py:function') or 'harness'."""
+    return _where(exc.__traceback__)
 
 
 class Obligation:
@@ -541,6 +550,7 @@ class SymCtx(BaseCtx):
         self.quick_ms = 3000
         self.rewrites = []
         self._rewrite_ids = set()
+        self.observed_fp = {}
 
     # -- inputs --------------------------------------------------------------------------------------------------
     def var(self, name, lo=None, hi=None, lo_strict=False, hi_strict=False, integer=False, nice=None):
@@ -819,6 +829,11 @@ class SymCtx(BaseCtx):
     def eq(self, a, b, label, learn=True):
         """a == b under the path condition.  A proven equality is remembered as a rewrite b -> a (valid on this path)
         and applied to later obligations, so that downstream values are compared modulo upstream ones."""
+        if not isinstance(a, Sym) and not isinstance(b, Sym):
+            # both concrete: float arithmetic of the real code vs the oracle's; compared numerically like a replay
+            fa, fb = float(a), float(b)
+            ok = fa == fb or abs(fa - fb) <= 1e-12 + 1e-9 * max(abs(fa), abs(fb))
+            return self.require(ok, label, f"{fa!r} != {fb!r}")
         az, bz = to_z3(a), to_z3(b)
         if az is None or bz is None:
             raise EngineError(f"eq on non numeric {type(a)} {type(b)}")
@@ -905,6 +920,47 @@ class SymCtx(BaseCtx):
     def observe(self, key, value):
         """Record a result for the fidelity replay (symbolic value evaluated at the path model vs concrete run)."""
         self.observed[key] = value
+
+    def observe_float(self, key, value):
+        """Like observe, but the fidelity replay compares the DAG evaluated in Python floats (same operation order)
+        bit-for-bit with the real code's result: validates the order assumed by the Float64 lowering."""
+        self.observed[key] = value
+        self.observed_fp[key] = value
+
+    def fp_unreachable(self, cond, label, box, timeout_ms=60000):
+        """`cond` (over symbolic results) must be unsatisfiable when every operation of its DAG is a binary64
+        operation and every free variable lies in `box`.  The path condition is NOT used: callers make sure the
+        DAG is the same on every path through the kernel (DESIGN §3.5)."""
+        from . import fp
+        c = cond.e if isinstance(cond, SymBool) else cond
+        names = sorted(free_vars(c))
+        key = (str(c), str(box))
+        self.stats["obligations"] += 1
+        t0 = time.time()
+        if key in _FP_CACHE:
+            r, data = _FP_CACHE[key]
+        else:
+            self.stats["queries"] += 1
+            r, data = fp.solve_fp(c, names, box, timeout_ms)
+            _FP_CACHE[key] = (r, data)
+            self.stats["solver_s"] += time.time() - t0
+            self.stats["fp_queries"] = self.stats.get("fp_queries", 0) + 1
+        dt = time.time() - t0
+        if r == "unsat":
+            self.stats["unsat"] += 1
+            self.obligations.append(Obligation(label, "unsat", "Float64", dt, "solver-fp"))
+            return True
+        if r == "sat":
+            self.stats["sat"] += 1
+            inputs = self.nice_model(None) or {}
+            inputs = dict(inputs)
+            inputs.update(data)
+            self.candidates.append((label, inputs))
+            self.obligations.append(Obligation(label, "sat", f"Float64 model {data}"[:300], dt, "solver-fp"))
+            return False
+        self.stats["inconclusive"] += 1
+        self.obligations.append(Obligation(label, "unknown", f"Float64: {data}"[:200], dt, "solver-fp"))
+        return None
 
     # -- models --------------------------------------------------------------------------------------------------
     def model_inputs(self, m):
@@ -1064,6 +1120,12 @@ class ConcCtx(BaseCtx):
     def note_divisor(self, dz):
         pass
 
+    def observe_float(self, key, value):
+        self.observe(key, value)
+
+    def fp_unreachable(self, cond, label, box, timeout_ms=60000):
+        return True
+
 
 # ----------------------------------------------------------------------------------------------------------------
 # exploration
@@ -1138,7 +1200,16 @@ def explore(harness, params, max_paths=256, max_seconds=600.0, solver_timeout_ms
                                 obs[k] = Fraction(v) if not isinstance(v, float) else float_to_fraction(v)
                             else:
                                 obs[k] = v
-                        pr.fidelity = (inputs, obs)
+                        fobs = {}
+                        if ctx.observed_fp:
+                            from . import fp as _fp
+                            for k, v in ctx.observed_fp.items():
+                                if isinstance(v, Sym):
+                                    try:
+                                        fobs[k] = _fp.eval_float(v.e, {n: float(x) for n, x in inputs.items()})
+                                    except Exception as e:  # noqa
+                                        fobs[k] = f"error: {e}"
+                        pr.fidelity = (inputs, obs, fobs)
                 except PathAbort:
                     pass
             if on_path_end is not None:
@@ -1167,3 +1238,41 @@ def run_concrete(harness, params, inputs, rtol=1e-9, atol=1e-12):
         set_ctx(None)
     return dict(outcome=outcome, failures=ctx.failures, observed=ctx.observed, n_obligations=len(ctx.obligations),
                 notes=ctx.notes)
+
+
+# ----------------------------------------------------------------------------------------------------------------
+# mode-independent helpers for oracles
+# ----------------------------------------------------------------------------------------------------------------
+def ite(cond, a, b):
+    """If-then-else usable in oracles in both modes."""
+    if isinstance(cond, SymBool):
+        return Sym(z3.If(cond.e, to_z3(a), to_z3(b)))
+    return a if cond else b
+
+
+def floor_(x):
+    """floor that stays lazy on proxies (no concretisation)."""
+    return math.floor(x)
+
+
+def ceil_(x):
+    return math.ceil(x)
+
+
+def sym_eq(a, b):
+    """a == b as SymBool/bool without triggering a decision."""
+    if isinstance(a, Sym) or isinstance(b, Sym):
+        return SymBool(to_z3(a) == to_z3(b))
+    return a == b
+
+
+def and_(*cs):
+    if any(isinstance(c, SymBool) for c in cs):
+        return SymBool(z3.And(*[c.e if isinstance(c, SymBool) else z3.BoolVal(bool(c)) for c in cs]))
+    return all(cs)
+
+
+def or_(*cs):
+    if any(isinstance(c, SymBool) for c in cs):
+        return SymBool(z3.Or(*[c.e if isinstance(c, SymBool) else z3.BoolVal(bool(c)) for c in cs]))
+    return any(cs)
